@@ -461,3 +461,22 @@ def print_parse_round_trip(ex):
                            [e for l, e in lpost3 if l == nm] + [cal.ldt_valid(f), sep3, z3.ULE(sp, z3.BitVecVal((1 << 64) - 400, 64)), sp != 0, z3.ULE(pp.off, z3.BitVecVal((1 << 64) - 400, 64)), pp.off != 0],
                            byte(r3, k) == f[k], logic=None))
     return out
+
+
+# ---- the processors print the name of the zone they are bound to (C15: "... followed by the bracketed zone name"; that the
+# processor is bound to the zone of the TimeZone that prints is the binding contract of TimeZone::printTo, C08) ----------
+def _proc_print_post(cls, info_cls, field):
+    def post(c):
+        zi = c.old.field(c.this, cls, 'mZoneInfo.mZoneInfo')
+        want = c.old.load(Ptr(None, zi + c.mod.field(info_cls, field)[0]), c.ex.pbytes)
+        got = list(c.ghost.get('out', []))
+        ok = len(got) == 1 and isinstance(got[0], tuple) and got[0][0] == 'str'
+        return [('prints-one-string', z3.BoolVal(ok)),
+                ('the-name-recorded-in-the-bound-zone-info', (c.ex.ptr_to_bv(got[0][1]) == want) if ok else z3.BoolVal(False))]
+    return post
+
+
+from vc.symex import Ptr  # noqa: E402
+for _cls, _info in (('ace_time::BasicZoneProcessor', 'ace_time::basic::ZoneInfo'), ('ace_time::ExtendedZoneProcessor', 'ace_time::extended::ZoneInfo')):
+    contract(_cls + '::printTo(Print&) const', props=['C15'], requires=lambda c, _cls=_cls: [c.old.field(c.this, _cls, 'mZoneInfo.mZoneInfo') != 0],
+             ensures=_proc_print_post(_cls, _info, 'name'), assigns=lambda c: [])
